@@ -1,8 +1,8 @@
 """C01 - matrix-vector products equal the mathematical product in every storage format.
 
 Inputs on which the *property* fails on the unchanged tree (genuine FEAT defects, reproduced with the real containers
-at Q; /repo is not changed). The random generator avoids the open ones; F1, F7 and F8 are executed and judged on every run in the
-second stream "known-edge" (signatures c01-edge:F1 / F7 / F8, open entries of KNOWN_FINDINGS.json -> KNOWN-FINDING
+at Q; /repo is not changed). The random generator avoids the open ones; F1 and F8 are executed and judged on every run in the
+second stream "known-edge" (signatures c01-edge:F1 / F8, open entries of KNOWN_FINDINGS.json -> KNOWN-FINDING
 lines; once fixed in FEAT the cases simply pass):
 
  F1  `dense apply 0 0 0 1/1 0 0 0`  (default-constructed 0x0 DenseMatrix, r and x empty; same for axpy / transposed and
@@ -26,7 +26,7 @@ lines; once fixed in FEAT the cases simply pass):
  F6  (compile-time, open) the flat DenseVector overloads of TupleDiagMatrix cannot be instantiated: they recurse into
      `rest().apply(DenseVector&, ...)`, but the one-block specialisation `TupleDiagMatrix<First_>` (tuple_diag_matrix.hpp
      ~l.905) only has the TupleVector overloads. The TupleVector overloads are run (types tdiag_*).
- F7  (run-time, open) `PowerRowMatrix::apply_transposed(DenseVector& r, const DenseVector& x, const DenseVector& y, alpha)`
+ F7  (FIXED in /repo by f4bb574b6; inputs now in the corpus) `PowerRowMatrix::apply_transposed(DenseVector& r, const DenseVector& x, const DenseVector& y, alpha)`
      (power_row_matrix.hpp:547-548) calls `first().apply(...)` / `rest().apply(...)` instead of apply_transposed: wrong
      values or a size assertion. Reached by axpyTF on every type containing a PowerRowMatrix with >= 2 blocks and by
      applyTF where such a row is reached through a chained call (PowerFullMatrix, SaddlePointMatrix block D).
@@ -35,6 +35,11 @@ lines; once fixed in FEAT the cases simply pass):
  F8  (run-time, open) the flat DenseVector overloads of all Power*/SaddlePoint matrices abort when a block has a zero
      row or column count: the range constructor DenseVector(dv, size, offset) asserts size > 0.
      `meta pdiag2_csr applyTF D csr 2 0 3 0 0 0 0 0 csr 2 2 3 0 0 0 0 0 1/1 4 2/7 -3/1 -5/3 0/1 0 0` -> ABORT, expected `R 2 0/1 0/1`.
+
+Patch proposals for the two open run-time findings (tested on a private copy: all known-edge inputs return the correct
+empty / product vectors, and the FEAT unit tests dense_matrix (40), dense_vector (50), sparse_matrix_banded (24),
+sparse_matrix_csr (68), meta_matrix-apply (4) pass): proposed_fix_F1.diff (early return for an empty result vector before
+the aliasing assertion, 8 added lines) and proposed_fix_F8.diff (an empty range DenseVector owns no array, 3 lines).
 """
 import json
 import os
@@ -298,22 +303,26 @@ META_TYPES = {
     "tuple12_saddle": ("R", ("S", _C, _C, _C), ("S", _C, _C, _C)),
     "tuple32_csr": ("C", ("R", _C, _C), ("C", ("R", _C, _C), ("R", _C, _C))),
     "tdiag_csr_dense": ("D", _C, _DN),
+    "pdiag2_cscr": ("D", "cscr", "cscr"),
+    "pcol2_cscr": ("C", "cscr", "cscr"),
+    "prow2_banded": ("R", "banded", "banded"),
+    "saddle_banded": ("S", "banded", _C, "cscr"),
+    "tuple22_banded_cscr": ("C", ("R", "banded", "cscr"), ("R", "cscr", "banded")),
     "tdiag_csr_saddle_csr": ("D", _C, ("D", ("S", _C, _C, _C), _C)),
     "pdiag2_pfull22": ("D", ("C", ("R", _C, _C), ("R", _C, _C)), ("C", ("R", _C, _C), ("R", _C, _C))),
 }
 # types that also have the overloads with flat DenseVector operands (all leaves use DenseVector; TupleMatrix has none and
 # the flat overloads of TupleDiagMatrix cannot be instantiated: its one-block specialisation lacks them - finding F6)
-META_FLAT = {"prow3_csr", "pcol3_csr", "pdiag2_csr", "pfull_w3h2_csr", "saddle_csr", "saddle_stokes", "pdiag2_pfull22"}
+META_FLAT = {"prow3_csr", "pcol3_csr", "pdiag2_csr", "pfull_w3h2_csr", "saddle_csr", "saddle_stokes", "pdiag2_pfull22",
+             "pdiag2_cscr", "pcol2_cscr", "prow2_banded", "saddle_banded"}
 
 
-META_F7_AXPYT = {"prow3_csr", "pfull_w3h2_csr", "saddle_stokes", "pdiag2_pfull22"}    # contain a PowerRowMatrix with >= 2 blocks
-META_F7_APPLYT = {"pfull_w3h2_csr", "saddle_stokes", "pdiag2_pfull22"}               # ... reached through a chained call
 
 
 def _unit(shape, axis):
     """granularity of the pod row (axis 0) / column (axis 1) count of a subtree (block sizes of its BCSR leaves)"""
     from math import gcd
-    if shape == "csr" or shape == "dense":
+    if shape in ("csr", "dense", "cscr", "banded"):
         return 1
     if shape[0] == "bcsr":
         return shape[1 + axis]
@@ -342,6 +351,23 @@ def _parts(rng, prof, shape, axis):
 
 def gen_tree(rng, shape, rows, cols, dims):
     """tokens of the tree and its pod row / column profiles; rows/cols = None means free"""
+    if shape == "cscr":
+        rows = rng.choice(dims) if rows is None else _tot(rows)
+        cols = rng.choice(dims) if cols is None else _tot(cols)
+        pat, _ = gen_pattern(rng, rows, cols)
+        stored = [i for i in range(rows) if pat[i] or rng.random() < 0.3]
+        rp, ci = csr_arrays([pat[i] for i in stored])
+        if not ci:
+            stored, rp = [], [0]
+        val = [rval(rng, nonzero=rng.random() < 0.8) for _ in ci]
+        return ["cscr", str(rows), str(cols), nl(rp), nl(ci), fl(val), nl(stored)], rows, cols
+    if shape == "banded":
+        rows = max(1, rng.choice(dims)) if rows is None else _tot(rows)
+        cols = max(1, rng.choice(dims)) if cols is None else _tot(cols)
+        assert rows >= 1 and rows + cols >= 2
+        off = [o for o in range(rows + cols - 1) if rng.random() < 0.5]
+        val = [rval(rng, nonzero=rng.random() < 0.8) for _ in range(rows * len(off))]
+        return ["banded", str(rows), str(cols), nl(off), fl(val)], rows, cols
     if shape == "csr" or shape == "dense" or shape[0] == "bcsr":
         bh, bw = (shape[1], shape[2]) if shape[0] == "bcsr" else (1, 1)
         lo = 1 if shape == "dense" else 0
@@ -386,12 +412,12 @@ def gen_meta_case(rng, dims=(0, 1, 1, 2, 2, 3, 4)):
     ty = rng.choice(sorted(META_TYPES))
     op = rng.choice(["apply", "axpy", "axpy", "applyT", "axpyT", "axpyT"])
     if ty in META_FLAT and rng.random() < 0.4:
-        # F7: the flat 4-argument PowerRowMatrix::apply_transposed calls apply; F8: the flat overloads abort on a block with
-        # a zero dimension (both judged in stream known-edge, avoided here)
-        if not ((op == "axpyT" and ty in META_F7_AXPYT) or (op == "applyT" and ty in META_F7_APPLYT)):
-            op += "F"
-            dims = tuple(d for d in dims if d > 0)
-    if "dense" in ty:      # a DenseMatrix with a zero dimension cannot be constructed
+        # F8: the flat overloads abort on a block with a zero dimension (judged in stream known-edge, avoided here)
+        op += "F"
+        dims = tuple(d for d in dims if d > 0)
+    if "banded" in ty and op.rstrip("F").endswith("T"):
+        op = op.replace("T", "")       # the banded format does not offer the transposed product
+    if "dense" in ty or "banded" in ty:      # a DenseMatrix with a zero dimension cannot be constructed
         dims = tuple(d for d in dims if d > 0)
     toks, rows, cols = gen_tree(rng, META_TYPES[ty], None, None, dims)
     rows, cols = _tot(rows), _tot(cols)
@@ -405,6 +431,9 @@ def gen_cases(rng, count, sizes):
 
 
 CORPUS = [
+    # former finding F7 (fixed in /repo by f4bb574b6): flat 4-argument PowerRowMatrix::apply_transposed
+    "meta prow3_csr axpyTF R csr 2 1 3 0 1 1 1 0 1 2/1 R csr 2 1 3 0 0 0 0 0 csr 2 1 3 0 0 0 0 0 1/1 2 1/1 1/1 3 0/1 0/1 0/1 0",
+    "meta pfull_w3h2_csr applyTF C R csr 3 2 4 0 0 0 0 0 0 R csr 3 1 4 0 1 1 1 1 0 1 1/1 csr 3 1 4 0 0 0 0 0 0 R csr 2 2 3 0 1 1 1 1 1 -2/1 R csr 2 1 3 0 0 0 0 0 csr 2 1 3 0 0 0 0 0 1/1 5 2/1 -5/3 4/1 0/1 7/3 0 0",
     # former finding F2 (fixed in /repo by 8f02f23f1): BCSR mixed overload with an empty y
     "bcsr 64 2 3 4 axpy 0 0 1 0 0 0 0/1 0 0 0",
     "bcsr 64 2 3 4 axpyT 0 0 1 0 0 0 0/1 0 0 0",
@@ -592,6 +621,22 @@ class Case:
                     for j in range(cols):
                         m[(i, j)] = val[i * cols + j]
                 return rows, cols, m
+            if t == "banded":
+                rows, cols = c.nat(), c.nat()
+                off, val = c.nats(), c.fracs()
+                for k, o in enumerate(off):
+                    for i in range(rows):
+                        j = i + o + 1 - rows
+                        if 0 <= j < cols:
+                            m[(i, j)] = m.get((i, j), Fraction(0)) + val[k * rows + i]
+                return rows, cols, m
+            if t == "cscr":
+                rows, cols = c.nat(), c.nat()
+                rp, ci, val, rn = c.nats(), c.nats(), c.fracs(), c.nats()
+                for s_, row in enumerate(rn):
+                    for k in range(rp[s_], rp[s_ + 1]):
+                        m[(row, ci[k])] = m.get((row, ci[k]), Fraction(0)) + val[k]
+                return rows, cols, m
             bh = bw = 1
             if t == "bcsr":
                 bh, bw = c.nat(), c.nat()
@@ -693,13 +738,20 @@ def f64_supported(case):
     if t[0] == "dense":
         return t[1] != "dense"
     if t[0] == "bcsr":
-        return (int(t[2]), int(t[3])) in ((1, 1), (2, 2), (2, 3), (3, 2)) and t[5] != "dense"
+        return t[5] != "dense"          # all six block shapes
     return False
 
 
-def oracle_f64(case, out):
-    """T3-lite: the same operation at double with r pre-filled with NaN; judged against the exact product under the
-    a-priori bound 4 (n_i + 8) u (|alpha| (|A||x|)_i + |y_i|)  (n_i = stored entries of row/column i)"""
+def _gamma(n, u):
+    """gamma_n = n u / (1 - n u), the constant of theorem C01.fl_rowloop_gamma"""
+    return n * u / (1 - n * u)
+
+
+def oracle_fl(case, out):
+    """T3: the same operation at double ("f64") or float ("f32") with r pre-filled with NaN; judged against the exact
+    product under the a-priori bound  gamma_{n_i + 8} (|alpha| (|A||x|)_i + |y_i|)  with the gamma of the Lean theorems
+    (n_i stored entries of row/column i; +8: conversion of the rational inputs, alpha, the y path, b/a trick)"""
+    u = Fraction(1, 2 ** 53) if case.startswith("f64") else Fraction(1, 2 ** 24)
     try:
         c = Case(case[4:])
     except Exception as e:
@@ -708,7 +760,7 @@ def oracle_f64(case, out):
         if c.fmt == "banded" and c.tr and out.startswith("ABORT"):
             return None
         if is_abnormal(out):
-            return "%s %s at double ended with %s" % (c.fmt, c.op, out)
+            return "%s %s at %s ended with %s" % (c.fmt, c.op, case[:3], out)
         t = out.split()
         if t[0] != "F" or int(t[1]) != len(t) - 2:
             return "unparsable output"
@@ -731,9 +783,9 @@ def oracle_f64(case, out):
             v = Fraction(float.fromhex(t[2 + i]))
             yi = c.y[i] if c.axpy else Fraction(0)
             exact = yi + a * p[i]
-            bound = 4 * (cnt[i] + 8) * U53 * (abs(a) * pa[i] + abs(yi))
-            if c.axpy and abs(a) < EPS:
-                bound += EPS * (pa[i] + abs(yi))
+            bound = _gamma(cnt[i] + 8, u) * (abs(a) * pa[i] + abs(yi))
+            if c.axpy and abs(a) < 2 * u:      # early-out below Math::eps<DT_>() = 2u
+                bound += 2 * u * (pa[i] + abs(yi))
             if abs(v - exact) > bound:
                 return "r[%d] = %s, exact %s, bound %s" % (i, float(v), float(exact), float(bound))
         return None
@@ -821,10 +873,6 @@ EDGE["dense axpy 0 0 0 2/1 0 0 1"] = "c01-edge:F1"                       # r ali
 
 
 
-EDGE["meta prow3_csr axpyTF R csr 2 1 3 0 1 1 1 0 1 2/1 R csr 2 1 3 0 0 0 0 0 csr 2 1 3 0 0 0 0 0 "
-     "1/1 2 1/1 1/1 3 0/1 0/1 0/1 0"] = "c01-edge:F7"
-EDGE["meta pfull_w3h2_csr applyTF C R csr 3 2 4 0 0 0 0 0 0 R csr 3 1 4 0 1 1 1 1 0 1 1/1 csr 3 1 4 0 0 0 0 0 0 "
-     "R csr 2 2 3 0 1 1 1 1 1 -2/1 R csr 2 1 3 0 0 0 0 0 csr 2 1 3 0 0 0 0 0 1/1 5 2/1 -5/3 4/1 0/1 7/3 0 0"] = "c01-edge:F7"
 EDGE["meta pdiag2_csr applyTF D csr 2 0 3 0 0 0 0 0 csr 2 2 3 0 0 0 0 0 1/1 4 2/7 -3/1 -5/3 0/1 0 0"] = "c01-edge:F8"
 EDGE["meta saddle_csr applyF S csr 2 2 3 0 2 2 2 1 0 2 -4/1 3/7 csr 2 0 3 0 0 0 0 0 csr 1 2 2 0 2 2 0 1 2 -9/7 4/3 "
      "1/1 2 -3/1 -1/1 0 0"] = "c01-edge:F8"
@@ -874,9 +922,11 @@ def main(argv):
                           model_filter=edge_model_filter)
     st = vlib.Stream("apply", cases, [binary], vlib.driver_cmd(PROP), oracle=oracle, nontrivial=nontrivial,
                      describe=describe, signature=signature, canon=canon)
-    f64_cases = ["f64 " + c for c in cases if f64_supported(c)][: (2500 if args.tier == "quick" else 40000)]
-    st_f64 = vlib.Stream("f64-nan-prefill", f64_cases, [binary], None, oracle=oracle_f64,
+    fl_src = [c for c in cases if f64_supported(c)][: (2500 if args.tier == "quick" else 40000)]
+    st_f64 = vlib.Stream("f64-nan-prefill", ["f64 " + c for c in fl_src], [binary], None, oracle=oracle_fl,
                          describe=lambda c: describe(c[4:]), signature=signature)
+    st_f32 = vlib.Stream("f32-nan-prefill", ["f32 " + c for c in fl_src[: len(fl_src) // 2]], [binary], None,
+                         oracle=oracle_fl, describe=lambda c: describe(c[4:]), signature=signature)
     stats_rule = ("meta-matrices (13 C++ types of depth <= 3: PowerRow/Col/Diag/Full, TupleMatrix, SaddlePoint over CSR / BCSR / "
                   "dense leaves with Tuple/PowerVector operands); f64-nan-prefill: leaf formats at double, r pre-filled with "
                   "NaN, a-priori rounding bound; "
@@ -885,10 +935,11 @@ def main(argv):
                   "transposed forms, 32/64-bit indices, r aliasing y, alpha in {0, +-1, below eps, eps, general}; "
                   "non-trivial = at least one stored entry and one of {empty row, rectangular, alpha not in {0,1}, "
                   "r aliases y, transposed, block > 1}")
-    rc = vlib.run_pipeline(PROP, args.tier, args.seed, lean, [st, st_edge, st_f64], t0, assumptions=[
+    rc = vlib.run_pipeline(PROP, args.tier, args.seed, lean, [st, st_edge, st_f64, st_f32], t0, assumptions=[
         "Index modelled as unbounded Nat (no 32/64-bit overflow at the sizes generated)",
         "exact rational arithmetic at Q in the main stream; stream f64-nan-prefill re-runs the leaf formats at double with "
-        "NaN-pre-filled r under an a-priori rounding bound (float32, meta-matrices and blocked vectors not re-run)",
+        "NaN-pre-filled r under the a-priori bound gamma_{n+8}(|alpha||A||x|+|y|) (gamma of C01.fl_rowloop_gamma), stream "
+        "f32-nan-prefill the same at float; meta-matrices and blocked vectors are not re-run in floating point",
         "DenseMatrix / SparseMatrixBanded 0x0 and the BCSR mixed overload with an empty y are not generated randomly; "
         "their exact failing inputs, and those of the flat meta-matrix overloads (F7, F8), are executed and judged in "
         "stream known-edge (KNOWN_FINDINGS c01-edge:F1/F7/F8)"],
